@@ -56,7 +56,7 @@ def opaque_op(ctx, op, arr: SArr, axis, n=None, out_dtype=None, out_len=None, pa
     # congruence with earlier applications on this path
     for (op2, axis2, params2, src2, res2) in ctx.opaque_registry:
         if op2 == op and axis2 == axis and params2 == (n,) + tuple(params) and src2.ndim == arr.ndim and src2.dtype.kind == arr.dtype.kind:
-            if src2 is arr or _provably_equal(ctx, src2, arr):
+            if src2.elem is arr.elem or _provably_equal(ctx, src2, arr):
                 return SArr(shape, res2.elem, out_dtype, arr.backend, opaque=(op, axis, arr))
     k = len(ctx.opaque_registry)
     nd = len(shape)
@@ -69,7 +69,9 @@ def opaque_op(ctx, op, arr: SArr, axis, n=None, out_dtype=None, out_len=None, pa
         fr = z3.Function(f"{op}#{k}_r", *sorts, z3.RealSort())
         elem = lambda ix: fr(*[V.Z(i) for i in ix])
     res = SArr(shape, elem, out_dtype, arr.backend, opaque=(op, axis, arr))
-    ctx.opaque_registry.append((op, axis, (n,) + tuple(params), arr, res))
+    # snapshots: arrays are mutable (in-place ops replace .elem), the registry must not follow them
+    ctx.opaque_registry.append((op, axis, (n,) + tuple(params), SArr(arr.shape, arr.elem, arr.dtype, arr.backend),
+                                SArr(shape, elem, out_dtype, arr.backend)))
     ctx.note(f"stub:{op} is an uninterpreted operator along an axis (values of the FFT are not modelled)")
     return res
 
@@ -178,7 +180,7 @@ class StubsFft(StubsLib):
             ctx.events.append(("force", f"scipy.fft.{f.name}(dask)"))
             x = SArr(x.shape, x.elem, x.dtype, "numpy")
         if f.name not in ("fft", "ifft"):
-            raise Unsupported(f"fft function {f.name} (only fft/ifft are modelled symbolically)")
+            return self.opaque_generic(ctx, f.name, x, args[1:], kwargs)
         rest = list(args[1:])
         n = kwargs.pop("n", rest.pop(0) if rest else None)
         axis = kwargs.pop("axis", rest.pop(0) if rest else -1)
@@ -192,6 +194,32 @@ class StubsFft(StubsLib):
             dt = DType("complex64") if src.dtype.name in ("float32", "complex64") else DType("complex128")
             return SArr(src.shape, lambda ix: Cx.of(src.elem(ix)), dt, x.backend)
         return opaque_op(ctx, f.name, x, axis, n=n, params=(norm,))
+
+    def opaque_generic(self, ctx, name, x, rest, kwargs):
+        """Any other scipy.fft transform: an uninterpreted array-valued function of (input, arguments);
+        shape unknown (fresh dims of the same rank), same result for provably equal inputs."""
+        key = (name, repr(rest), repr(sorted(kwargs.items())))
+        if getattr(ctx, "concrete", False):
+            import numpy as np
+            import scipy.fft
+            from .concrete import materialize, arr_from_real, to_real
+            xr = materialize(SArr(x.shape, x.elem, x.dtype, "numpy"))
+            y = getattr(scipy.fft, name)(xr, *[to_real(a, None) for a in rest], **{k: to_real(v, None) for k, v in kwargs.items()})
+            out = arr_from_real(y)
+            return SArr(out.shape, out.elem, out.dtype, x.backend)
+        for (k2, src2, res2) in ctx.__dict__.setdefault("generic_registry", []):
+            if k2 == key and src2.ndim == x.ndim and (src2.elem is x.elem or _provably_equal(ctx, src2, x)):
+                return SArr(res2.shape, res2.elem, res2.dtype, x.backend)
+        k = len(ctx.generic_registry)
+        shape = tuple(ctx.fresh(f"{name}#{k}_dim{a}", "int") for a in range(x.ndim))
+        for d in shape:
+            ctx.assume(d >= 0, why="dims are non-negative")
+        fre = z3.Function(f"{name}#g{k}_re", *([z3.IntSort()] * x.ndim), z3.RealSort())
+        fim = z3.Function(f"{name}#g{k}_im", *([z3.IntSort()] * x.ndim), z3.RealSort())
+        res = SArr(shape, lambda ix: Cx(fre(*[V.Z(i) for i in ix]), fim(*[V.Z(i) for i in ix])), "complex128", x.backend)
+        ctx.generic_registry.append((key, SArr(x.shape, x.elem, x.dtype, x.backend), res))
+        ctx.note(f"stub:scipy.fft.{name} is an uninterpreted function of its input and arguments")
+        return res
 
     # -- nditer ---------------------------------------------------------------------------
     def np_nditer(self, ctx, arr, flags=()):
